@@ -1102,6 +1102,11 @@ func (ex *Exec) seqEq(a, b SliceV, env *SpecEnv, pc *Term) *Term {
 func (fr *Frame) contractCall(ct *Contract, fn *ssa.Function, args []Value, pc *Term, st *State, pos token.Pos, resT types.Type) callResult {
 	ex := fr.ex
 	ex.ctx.calledContracts[contractName(ct)]++
+	if ct.Trusted {
+		ex.note("assumed: trusted contract of %s (its body is not verified)", contractName(ct))
+	} else if ct.NoFrame {
+		ex.note("assumed: %s modifies only what its modifies clause lists (noframe: its frame is not verified)", contractName(ct))
+	}
 	nPreCall := len(ex.assumes)
 	info := ex.ctx.infoOf[ct.StubObj.Pkg()]
 	env := &SpecEnv{vars: map[types.Object]Value{}, st: st, old: st}
